@@ -209,6 +209,8 @@ def _apply(op: str, ref: Ref, sim, a, b, a_ip, log, wired, ntype: str, t: int) -
                 check(not started, f"service {svc.name}.start() succeeded on a {pre} node")
         for app in list(a.applications.values()):
             app.run()
+        for nic in wired:
+            nic.enable()  # the interface API is refused on a node that is not ON (checked below: no interface enabled)
         after_sw = {x.name: x.operating_state.name for x in list(a.services.values()) + list(a.applications.values())}
         if not pre_on:
             cover("sw_api_not_on")
